@@ -195,6 +195,17 @@ func runC09(c *Ctx) {
 		for i := 0; i < nroot; i++ {
 			w.line(c, "reg "+universe[i])
 		}
+		if r.Chance(1, 4) { // a star: one parent with 2-4 children connected one after the other; then one of them goes (any position)
+			kids := universe[1 : 3+r.Intn(3)]
+			for _, k := range kids {
+				w.line(c, fmt.Sprintf("connect %s %s", universe[0], k))
+			}
+			c.Count("star")
+			w.line(c, fmt.Sprintf("%s %s", gen.Pick(r, []string{"exit", "killdate", "markdead"}), kids[r.Intn(len(kids))]))
+			if r.Bool() {
+				w.line(c, fmt.Sprintf("%s %s", gen.Pick(r, []string{"exit", "killdate", "markdead", "disconnect " + universe[0]}), kids[r.Intn(len(kids))]))
+			}
+		}
 		steps := 3 + r.Intn(12)
 		for s := 0; s < steps; s++ {
 			op := gen.Pick(r, ops)
